@@ -214,6 +214,19 @@ type FS struct {
 	// state-changing entries fail with ErrInjected (not used for crash images).
 	FailAfter int
 	stateOps  int
+	gen       int // bumped by Kill: handles and locks of the dead process become invalid
+}
+
+// Kill simulates the death of the process using this file system: every open handle
+// becomes invalid and every lock is dropped; the files stay as they are (completed calls
+// are applied, nothing else is). The journal continues.
+func (s *FS) Kill() {
+	s.mu.Lock()
+	defer s.mu.Unlock()
+	s.gen++
+	s.locks = map[string]bool{}
+	s.handles = map[int]int{}
+	s.journal = append(s.journal, Entry{Kind: KMark, Note: "kill"})
 }
 
 // ErrInjected is returned by calls failed on purpose.
@@ -322,7 +335,7 @@ func (s *FS) OpenFile(name string, flag int, perm os.FileMode) (fs.File, error) 
 	s.handles[in.id]++
 	_ = s.log(Entry{Kind: KOpen, Ino: in.id, Name: name})
 	ro := flag&(os.O_WRONLY|os.O_RDWR) == 0
-	return &file{fs: s, in: in, name: name, readOnly: ro}, nil
+	return &file{fs: s, in: in, name: name, readOnly: ro, gen: s.gen}, nil
 }
 
 // Stat implements fs.FileSystem.
@@ -390,6 +403,7 @@ func (s *FS) MkdirAll(path string, perm os.FileMode) error { return nil }
 type lockFile struct {
 	fs   *FS
 	name string
+	gen  int
 }
 
 // CreateLockFile implements fs.FileSystem: a second holder in the same FS object
@@ -412,14 +426,14 @@ func (s *FS) CreateLockFile(name string, perm os.FileMode) (fs.LockFile, bool, e
 	}
 	s.locks[name] = true
 	_ = s.log(Entry{Kind: KLock, Name: name})
-	return &lockFile{fs: s, name: name}, existed, nil
+	return &lockFile{fs: s, name: name, gen: s.gen}, existed, nil
 }
 
 func (l *lockFile) Unlock() error {
 	s := l.fs
 	s.mu.Lock()
 	defer s.mu.Unlock()
-	if !s.locks[l.name] {
+	if !s.locks[l.name] || l.gen != s.gen {
 		return os.ErrClosed
 	}
 	if s.dir[l.name] != nil {
@@ -440,10 +454,11 @@ type file struct {
 	off      int64
 	closed   bool
 	readOnly bool
+	gen      int
 }
 
 func (f *file) check() error {
-	if f.closed {
+	if f.closed || f.gen != f.fs.gen {
 		return os.ErrClosed
 	}
 	return nil
